@@ -58,22 +58,30 @@ def layout_items(tier):
     for name, rules, lexemes, token_only in LAYOUT_GRAMMARS:
         for n in range(0, maxlex + 1):
             for seq in itertools.product(lexemes, repeat=n):
-                items.append((name, seq))
+                items.append((name, seq, 'default'))
+                if n <= 2 or tier != 'quick':
+                    items.append((name, seq, 'regex-directive'))
+                    items.append((name, seq, 'empty-setting'))
     return items, runs
 
 
 def shard_layouts(m, items, runs=()):
     cache = {}
-    for name, seq in items:
-        if name not in cache:
+    for name, seq, wsmode in items:
+        if (name, wsmode) not in cache:
             _n, rules, lexemes, token_only = next(g for g in LAYOUT_GRAMMARS if g[0] == name)
-            g = gs.Grammar(rules=rules, directives=dict(DIRS))
+            dirs = dict(DIRS)
+            if wsmode == 'regex-directive':
+                dirs['whitespace'] = r'[ \t]+'
+            g = gs.Grammar(rules=rules, directives=dirs)
             model = impl.compile_text(gs.render_grammar(g))
-            cache[name] = (g, model, token_only)
-        g, model, token_only = cache[name]
-        ref = Ref(g, Cfg(comments=COMMENTS, eol_comments=EOLC))
+            cache[(name, wsmode)] = (g, model, token_only and wsmode == 'default')
+        g, model, token_only = cache[(name, wsmode)]
+        psettings = {'whitespace': ''} if wsmode == 'empty-setting' else {}
+        ws = {'default': 'DEFAULT', 'regex-directive': r'[ \t]+', 'empty-setting': None}[wsmode]
+        ref = Ref(g, Cfg(whitespace=ws, comments=COMMENTS, eol_comments=EOLC))
         base_text = ' '.join(seq)
-        base = impl.parse(model, base_text)
+        base = impl.parse(model, base_text, **psettings)
         m.add('evaluations')
         gaps = len(seq) + 1
         # inner gaps: non-empty runs; leading and trailing: also empty
@@ -88,7 +96,7 @@ def shard_layouts(m, items, runs=()):
                 parts.append(lx)
             parts.append(combo[len(seq)] if seq else combo[0])
             text = ''.join(parts) if seq else combo[0]
-            got = impl.parse(model, text)
+            got = impl.parse(model, text, **psettings)
             m.add('evaluations')
             m.add('transitions')
             m.add('states')
@@ -99,7 +107,7 @@ def shard_layouts(m, items, runs=()):
             if want is not None:
                 ok = (want[0] == 'fail' and got[0] == 'fail') or (want[0] == 'ok' and got[0] == 'ok' and got[1] == want[1])
                 if not ok:
-                    m.violation(f'a/differs-from-reference/{name}', grammar=label, input=text, got=got, want=want)
+                    m.violation(f'a/differs-from-reference/{name}/{wsmode}', grammar=label, input=text, whitespace=wsmode, got=got, want=want)
             if token_only and base[0] == 'ok':
                 m.add('nontrivial')
                 if got != base:
@@ -255,7 +263,7 @@ def run(rc):
     layering(rc)
     c = rc.total.counts
     rc.rule = (f'(a) {len(LAYOUT_GRAMMARS)} grammars with comment directives x every lexeme sequence of length <= 3 x every assignment of '
-               f'{len(runs)} whitespace/comment runs to every gap (leading/trailing may be empty); (b) {len(TOKENS)} tokens x all case variants x '
+               f'{len(runs)} whitespace/comment runs to every gap (leading/trailing may be empty), under three whitespace modes (default, regex directive, empty parse-time setting); (b) {len(TOKENS)} tokens x all case variants x '
                f'{len(FOLLOW)} following characters x nameguard {{default,on,off}} x namechars {{none,-,_}} x ignorecase x {{directive, parse-time setting}}; '
                f'(c) {len(LAYERING)} settings x 27 combinations of {{absent,v1,v2}} at compile/directive/parse time; non-trivial = accepted base input / '
                'matching token / combination with a layer present')
